@@ -20,6 +20,14 @@ func (m *Machine) freshName(base Value) string {
 }
 
 func (m *Machine) newInput(name string, w int) *Term {
+	if m.concrete != nil {
+		// concrete replay of a counterexample: inputs (data and schedule choices) are the model's values
+		val := m.concrete[name]
+		if w < 64 {
+			val &= (uint64(1) << uint(w)) - 1
+		}
+		return Const(w, val)
+	}
 	v := m.tc.Var(name, w)
 	m.inputs = append(m.inputs, v)
 	return v
